@@ -22,6 +22,7 @@ import Retro.Props.C15.ClosedCones
 import Retro.Props.C15.ClosedTorus
 import Retro.Props.C15.ClosedEulerMore
 import Retro.Props.C15.ClosedEulerCones
+import Retro.Props.C15.CapOrient
 import Mathlib.Tactic.Ring
 import Mathlib.Tactic.LinearCombination
 import Mathlib.Algebra.Field.Basic
@@ -185,7 +186,7 @@ theorem ring_verts_on_profile (rs : K → K) (start : K × K) (c s : K) (secs : 
     obtain ⟨g1, g2⟩ := ring_on_circle c s hstep _ _ _ hp
     have hunit : lenSq (normalize rs (place pt.nx pt.ny start)) = 1 := by
       have := hrs pt hpt
-      simp only [normalize, scale3, lenSq, place] at this ⊢
+      simp only [Lathe.normalize, scale3, lenSq, place] at this ⊢
       linear_combination this
     refine ⟨g1, ?_, ring_normal_unit c s hstep _ _ hunit _ hn⟩
     rw [g2]
